@@ -156,7 +156,7 @@ func (m *mlinkModel) analyseCursorFn(fn *ssa.Function, report func(in ssa.Instru
 
 func runC10(c *Ctx) {
 	P := c.P
-	c.Explanation = "Decides the structural clauses of the property: (R-CURSOR-VALID) in every function of package mlink, each access to the links through a cursor's current position is dominated — in a typestate dataflow over go/ssa — by a validation of that same position (checkValid, or a cursor method whose computed summary validates on all paths), so a stale cursor panics instead of hanging or altering the list; the validator tests exactly the marker the detach sites write. (R-DETACH-INVALIDATE) every link store that drops entries is preceded by invalidation of what it drops. (R-TAIL-RESET, R-SIZE-PAIR) mlink.Queue re-seats its cached tail cursor when the entry it hangs on can be detached, and size changes are paired one-to-one with insert/remove/clear. (R-RING-MIRROR) in package ring every next-link write has its mirror prev-link write in the same block. (R-YIELD) Each iterators are stoppable. (R-NOOP-GUARD, package ring) a no-op exit taken on x.f == v is justified only by a store of v into x.f in the same function; (R-LEN-EFFECT, package stack) every path of Push/Add/Pop/Clear that rewrites the list leaves its length at L0+1 / L0−1 / 0. Does NOT decide that the resulting sequences/cycles are the documented ones, Stack behaviour beyond Each, or termination of ring walks."
+	c.Explanation = "Decides the structural clauses of the property: (R-CURSOR-VALID) in every function of package mlink, each access to the links through a cursor's current position is dominated — in a typestate dataflow over go/ssa — by a validation of that same position (checkValid, or a cursor method whose computed summary validates on all paths), so a stale cursor panics instead of hanging or altering the list; the validator tests exactly the marker the detach sites write. (R-DETACH-INVALIDATE) every link store that drops entries is preceded by invalidation of what it drops. (R-TAIL-RESET, R-SIZE-PAIR) mlink.Queue re-seats its cached tail cursor when the entry it hangs on can be detached, and size changes are paired one-to-one with insert/remove/clear. (R-RING-MIRROR) in package ring every next-link write has its mirror prev-link write in the same block. (R-YIELD) Each iterators are stoppable. (R-NOOP-GUARD, package ring) a no-op exit taken on x.f == v is justified only by a store of v into x.f in the same function; (R-LEN-EFFECT, package stack) every path of Push/Add/Pop/Clear that rewrites the list leaves its length at L0+1 / L0−1 / 0. (R-WRAP-CHECKED) every node Ring.At returns that was reached through a link has been compared with the receiver. Does NOT decide that the resulting sequences/cycles are the documented ones, Stack behaviour beyond Each, or termination of ring walks."
 	c.rule("R-CURSOR-VALID", 5, "every access to entry fields through cur.pred is preceded on all paths by a validation of the current cur.pred")
 	c.rule("R-MARKER-AGREE", 1, "checkValid panics exactly when e.link == e, the marker written by detach sites; and returns e")
 	c.rule("R-DETACH-INVALIDATE", 4, "every store P.link = V is an insertion, a marker, or a detach preceded by invalidation of the dropped entries")
